@@ -40,7 +40,21 @@ pub fn gen_f64_bits(rng: &mut Rng) -> u64 {
     }
 }
 
+/// text that is *almost* a literal: a literal-shaped ASCII run with a multi-byte character at a random byte offset
+/// (every offset 0..30 occurs, extra weight on 14..21), optionally followed by more text — for code that slices text by
+/// byte positions (timestamp / interval / number parsing, comparisons of TIMESTAMP with TEXT, casts)
+pub fn awkward_text(rng: &mut Rng) -> String {
+    let shape = *rng.pick(&["2024-03-01 12:00:00.123456 and later", "1:02:03.5 hours", "9223372036854775807000", "true or false", "-12345.678e10 units", "approximately noon or a bit later", "2005-06-17 07:07:07"]);
+    let cut = (if rng.chance(1, 2) { 14 + rng.below(8) } else { rng.below(31) }).min(shape.len());
+    let wide = *rng.pick(&["\u{e9}", "\u{20ac}", "\u{1f600}", "\u{ff15}", "\u{3000}", "\u{130}"]);
+    let mut out: String = shape[..cut].to_owned();
+    out.push_str(wide);
+    if rng.chance(2, 3) { out.push_str(&shape[cut..]); }
+    out
+}
+
 pub fn gen_text(rng: &mut Rng) -> String {
+    if rng.chance(1, 12) { return awkward_text(rng); }
     match rng.below(3) {
         0 | 1 => (*rng.pick(TEXTS)).to_owned(),
         _ => {
